@@ -12,6 +12,7 @@ from ..util import Abort, Info, cm_enter, cm_exit, expect_eq, impl
 from .c01 import UNIVERSE
 
 ID = "C02"
+ATHERIS = True  # thorough tier: coverage-guided second engine over the same strategy/run_case
 LEVEL = "exploration"
 BUDGET = {"quick": 14000, "thorough": 1000000}
 RULE = (
